@@ -119,8 +119,28 @@ def close(u, v, rtol):
     return bool(np.all(np.abs(u[fu] - v[fv]) <= rtol * scale))
 
 
+def well_conditioned(cf):
+    """(sample, bin) entries whose jackknife value is determined up to rounding: the leave-one-out weight products and the
+    leave-one-out denominator of the estimator are not (numerically) zero.  Where they cancel to zero the value is 0/0 or x/0
+    in exact arithmetic and nan / inf / huge by accident of rounding — no statement about rounding applies there."""
+    den = cf.rr if cf.rr is not None else (cf.dr if cf.dr is not None else cf.rd)
+    ok = None
+    for m in (cf.dd, cf.dr, cf.rd, cf.rr):
+        if m is None:
+            continue
+        w = m.sum_weights.sample_patch_sum()
+        good = np.abs(w.samples) > 1e-9 * np.abs(w.data)[None, :]
+        ok = good if ok is None else (ok & good)
+    d = den.sample_patch_sum()
+    return ok & (np.abs(d.samples) > 1e-9 * np.abs(d.data)[None, :])
+
+
 def same_estimates(a, b, rtol, perm=None):
     for x, y in zip(a, b):
+        mask = None
+        if rtol != 0:
+            m1, m2 = well_conditioned(x["cf"]), well_conditioned(y["cf"])
+            mask = m1 & (m2[perm] if perm is not None else m2)
         for key in ("cd", "rd"):
             d1, d2 = x[key].data, y[key].data
             s1, s2 = x[key].samples, y[key].samples
@@ -129,9 +149,19 @@ def same_estimates(a, b, rtol, perm=None):
             if rtol == 0:
                 if not (np.array_equal(d1, d2, equal_nan=True) and np.array_equal(s1, s2, equal_nan=True)):
                     return f"{key} differs bitwise"
-            elif not (close(d1, d2, rtol) and close(s1, s2, rtol)):
-                return f"{key} differs beyond {rtol}"
-        if not close(x["cov"], y["cov"], max(rtol, 1e-10)):
+                continue
+            bins = mask.all(axis=0)
+            if not (close(d1[bins], d2[bins], rtol) and close(np.where(mask, s1, 0.0), np.where(mask, s2, 0.0), rtol)):
+                worst = float(np.nanmax(np.abs(np.where(mask, s1, 0.0) - np.where(mask, s2, 0.0)))) if mask.any() else float("nan")
+                return (f"{key} differs beyond {rtol}: values {d1.tolist()} vs {d2.tolist()}, largest difference of a "
+                        f"well-conditioned jackknife sample {worst:.3g} ({int((~mask).sum())} of {mask.size} sample entries are "
+                        "singular (leave-one-out denominator zero) and not compared)")
+        if rtol == 0:
+            ok = close(x["cov"], y["cov"], 1e-10)
+        else:
+            bins = mask.all(axis=0)
+            ok = close(x["cov"][np.ix_(bins, bins)], y["cov"][np.ix_(bins, bins)], max(rtol, 1e-10)) if bins.any() else True
+        if not ok:
             return "covariance differs"
     return None
 
@@ -152,7 +182,10 @@ def run(prop, tier, seed, replay):
             scale_count = 0
             for ci in range(n_cases):
                 config, cfgkw, cosmology = make_config(rng)
-                field = G.make_field(rng, num_patches=rng.choice([2, 3, 4]))
+                # base position of the field and kind of rotation cycle deterministically (every run has fields across RA = 0 and
+                # on a pole, and rotations onto them); every second field is tight enough for pairs across patch boundaries
+                field = G.make_field(rng, num_patches=rng.choice([2, 3, 4]), base=sorted(G.BASES)[ci % len(G.BASES)],
+                                     spread=0.05 if ci % 3 != 1 else None)
                 N = field["N"]
                 edges = cfgkw["edges"]
                 zr = (edges[0] - 0.1, edges[-1] + 0.1)
@@ -188,7 +221,7 @@ def run(prop, tier, seed, replay):
                         nontriv = (ci, tname) if off.any() else None
                         f2, s2, perm, rtol, detail = field, samples, None, 0, ""
                         if tname == "rotate":
-                            kind = rng.choice(["random", "north", "south", "ra0"])
+                            kind = ["ra0", "north", "random", "south"][(ci + ci // 4) % 4]
                             R = rotation(rng, kind, G.to_vec(*G.BASES[field["base"]]))
                             s2 = []
                             for s in samples:
